@@ -362,6 +362,12 @@ def call_builtin(I, name, args, kwargs, node, frame):
         except E.Unsupported:
             return VTuple([VStr("#reversed"), args[0]])
     if name == "sorted":
+        if isinstance(args[0], VTuple) and args[0].items and isinstance(args[0].items[0], VStr) and \
+                E.simp(args[0].items[0].t).as_string() in ("#dictitems", "#dictkeys", "#dictvalues") and not kwargs:
+            # a permutation of a view whose iteration order is unspecified in this model anyway: the same view (the ordering fact is dropped: weaker, sound)
+            return args[0]
+        if isinstance(args[0], VRef) and args[0].kind == "dict" and not run.rec(args[0].oid).concrete and not kwargs:
+            return VTuple([VStr("#dictkeys"), args[0]])       # the keys in some order (the ordering fact is dropped: weaker, sound)
         if isinstance(args[0], VGen) or (isinstance(args[0], VRef) and not run.rec(args[0].oid).concrete):
             return I.fresh(("list", ("any",)), run.fresh_name("sorted"))
         return I.sorted_(args[0], kwargs)
